@@ -250,7 +250,8 @@ sexp sexp_arithmetic_shift (sexp ctx, sexp self, sexp_sint_t n, sexp i, sexp cou
   if (c == 0) return i;
   if (sexp_fixnump(i)) {
     if (c < 0) {
-      res = sexp_make_fixnum(c > -sizeof(sexp_sint_t)*CHAR_BIT ? sexp_unbox_fixnum(i) >> -c : 0);
+      res = sexp_make_fixnum(c > -(sexp_sint_t)(sizeof(sexp_sint_t)*CHAR_BIT) ? sexp_unbox_fixnum(i) >> -c
+                             : (sexp_unbox_fixnum(i) < 0 ? -1 : 0));
     } else {
 #if SEXP_USE_BIGNUMS
       if ((log2i(sexp_unbox_fixnum(i)) + c + 1)
@@ -287,8 +288,16 @@ sexp sexp_arithmetic_shift (sexp ctx, sexp self, sexp_sint_t n, sexp i, sexp cou
               tmp = sexp_bignum_data(i)[j+offset]
                 << (sizeof(sexp_uint_t)*CHAR_BIT-bit_shift);
           }
-          if (sexp_bignum_sign(res) < 0)
-            res = sexp_bignum_fxadd(ctx, res, 1);
+          if (sexp_bignum_sign(res) < 0) {
+            /* floor: the magnitude is rounded up only if a 1 bit was shifted out */
+            for (j=0, tmp=0; j<offset && j<len && !tmp; j++)
+              tmp = sexp_bignum_data(i)[j];
+            if (!tmp && bit_shift != 0 && offset < len)
+              tmp = sexp_bignum_data(i)[offset]
+                << (sizeof(sexp_uint_t)*CHAR_BIT-bit_shift);
+            if (tmp)
+              res = sexp_bignum_fxadd(ctx, res, 1);
+          }
         }
       }
     } else {
